@@ -11,9 +11,9 @@ cd $WT
 cp $SEED/*_test.go $DEST/ 2>/dev/null
 MOD=.
 [[ $DEST == cache* ]] && MOD=cache
-clean=$(cd $MOD && timeout 300 go test -count=1 -run "$RUN" $PKG 2>&1 | tail -1)
+clean=$(cd $MOD && timeout 300 go test ${GOTESTFLAGS:-} -count=1 -run "$RUN" $PKG 2>&1 | tail -1)
 git apply $SEED/patch.diff || { echo PATCH-FAILS; git -C /repo worktree remove --force $WT; exit 3; }
-patched=$(cd $MOD && timeout 300 go test -count=1 -run "$RUN" $PKG 2>&1 | tail -1)
+patched=$(cd $MOD && timeout 300 go test ${GOTESTFLAGS:-} -count=1 -run "$RUN" $PKG 2>&1 | tail -1)
 echo "clean:   $clean"
 echo "patched: $patched"
 git -C /repo worktree remove --force $WT
